@@ -126,6 +126,7 @@ type Report struct {
 	Decisions   int
 	Status      map[string]int
 	Violations  []Violation
+	Unwound     []Violation
 	Covers      map[string]int
 	Notes       map[string]bool
 	Funcs       map[string]int64
@@ -154,6 +155,7 @@ func (r *Report) Merge(o *Report) {
 		r.Status[k] += v
 	}
 	r.Violations = append(r.Violations, o.Violations...)
+	r.Unwound = append(r.Unwound, o.Unwound...)
 	for k, v := range o.Covers {
 		r.Covers[k] += v
 	}
@@ -295,6 +297,7 @@ func (e *Engine) Explore(entry *ssa.Function, args []Value, setup func(st *State
 					rep.Stubs[s] += c
 				}
 				rep.Violations = append(rep.Violations, st.viol...)
+				rep.Unwound = append(rep.Unwound, st.unwound...)
 				if out.sample != nil && len(rep.Samples) < cfg.SamplePaths {
 					rep.Samples = append(rep.Samples, *out.sample)
 				}
@@ -376,6 +379,12 @@ func (e *Engine) runPath(sol *Solver, entry *ssa.Function, args []Value, prefix 
 			}()
 			st.cleanupCoroutines()
 		}()
+		if (out.status == "unwind" || out.status == "deadlock") && !sol.dead {
+			if m, ok := st.PathModel(); ok {
+				st.unwound = append(st.unwound, Violation{What: out.status + ": " + out.msg, Model: m,
+					Syms: append([]string(nil), st.symOrder...), Prefix: append([]Decision(nil), st.decisions...)})
+			}
+		}
 		if wantSample && (out.status == "ok" || out.status == "violated") && !sol.dead {
 			if m, ok := st.PathModel(); ok {
 				sm := map[string]int64{}
